@@ -6,7 +6,8 @@ THEOREMS = [NS + t for t in """C01_oracle_exact C01_gp_index_unique C01_pu_os_in
 C01_single_machine_root C01_no_filtered_type C01_set_in_complete C01_pu_cpuset C01_numa_nodeset C01_allowed_sets
 C01_discovery_by_insertion
 C01_setstage_pre_decidable C01_setstage_set_in_complete C01_setstage_set_in_parent C01_setstage_memory_child_shares_cpuset
-C01_setstage_siblings_disjoint C01_setstage_nodeset_decomposition C01_setstage_allowed_sets C01_setstage_within_allowed C01_setstage_no_object_lost""".split()]
+C01_setstage_siblings_disjoint C01_setstage_nodeset_decomposition C01_setstage_allowed_sets C01_setstage_within_allowed C01_setstage_no_object_lost
+C01_links_of_render C01_renderCheck_sound""".split()]
 TRUSTED = ["C01_discovery_by_insertion is about the model of hwloc___insert_object_by_cpuset (lean/Hw/Topo/Insert.lean); that model is tied to the "
            "code by the C02 history engine, which predicts the exact tree after every hwloc_topology_insert_group_object call (new object = "
            "Group; the type-order table used for other new types is generated from the source by tools/gen_restrict.py but exercised only "
